@@ -60,6 +60,11 @@ func C14(c *core.Ctx) {
 	// ---- R14.9 (shared with C15 R15.4) containers keyed by a string form of a name use one
 	// form for insert, find and remove: two forms that disagree for some component types
 	// give the container a notion of name identity different from Name.Equal
+	// ---- R14.10 (shared with C03 R3.16 / R3.20) "equality agrees with the encodings": two
+	// unequal names have different encodings only if the sizer does not cut a value short
+	c.Import(C03, "R14.10", "the component or name sizer takes its one-octet shortcut for a number above 252: the buffer is two octets short, the value is silently truncated, and two unequal names get identical (undecodable) encodings", 2, func(k string) bool {
+		return strings.HasPrefix(k, "R3.20:one-octet-threshold-is-252:") || strings.HasPrefix(k, "R3.16:single-header-octet-below-253:std/encoding.Component.")
+	})
 	c.Import(C15, "R14.9", "a name-keyed container derives its keys from different string forms on different operations: its name identity disagrees with Name.Equal", 1, func(k string) bool {
 		return k == "R15.4:memory-store-key-agreement"
 	})
